@@ -1,5 +1,5 @@
 From Coq Require Import Extraction ExtrOcamlBasic.
-From SF Require Import Base.Prelude Account.AccountInfo.
+From SF Require Import Base.Prelude Account.AccountInfo Account.Validate.
 
 Extraction Language OCaml.
-Extraction "model.ml" Z.add Z.mul Z.opp run_c07.
+Extraction "model.ml" Z.add Z.mul Z.opp run_c07 run_c08 run_c09.
